@@ -16,7 +16,33 @@ def family(opid):
 
 
 def strip_tags(r):
-    return r.split(" #", 1)[0].strip()
+    """the compared outcome: without the informational tag (` #…`) and without the challenge trace (` ~…`)"""
+    return r.split(" ~", 1)[0].split(" #", 1)[0].strip()
+
+
+def trace_of(r):
+    """challenge trace ` ~label=hex,label=hex,…` appended to a verification outcome (may be absent)"""
+    if r is None or " ~" not in r:
+        return None
+    return [x for x in r.split(" ~", 1)[1].strip().split(",") if x]
+
+
+def trace_conflict(ri, rm, verdict):
+    """The Fiat-Shamir challenges drawn by the implementation (recorded by the verif-hooks instrumentation)
+    against those of the model: they must agree item by item (label and value) on their common prefix — the
+    implementation may stop early when it rejects, the model has none when the bytes do not decode — and must
+    be identical when the proof is accepted."""
+    ti, tm = trace_of(ri), trace_of(rm)
+    if ti is None or tm is None:
+        if verdict == "A" and (ti is None) != (tm is None):
+            return "challenge trace present on one side only"
+        return None
+    for k, (a, b) in enumerate(zip(ti, tm)):
+        if a != b:
+            return f"challenge #{k}: impl {a[:24]}.. model {b[:24]}.."
+    if verdict == "A" and len(ti) != len(tm):
+        return f"accepted with {len(ti)} challenges (impl) vs {len(tm)} (model)"
+    return None
 
 
 def load_known():
@@ -117,6 +143,9 @@ def run_correspondence(pid, P, ctx, stages=None):
                 bad = "panic"
             elif si != sm:
                 bad = "model-vs-impl"
+            elif trace_conflict(ri, rm, si):
+                bad = "challenge-trace"
+                rm = rm + "  [" + trace_conflict(ri, rm, si) + "]"
             elif expect is not None and si != expect:
                 bad = "both-vs-theorem"
             if expect is not None and sm is not None and sm != expect and bad is None:
